@@ -96,6 +96,18 @@ theorem multipliers_ascending_positive {K : Type} [Field K] [LinearOrder K] [IsS
     (mus.map fun μ => -1 / μ).Pairwise (· < ·) ∧ ∀ lam ∈ mus.map (fun μ => -1 / μ), 0 < lam :=
   negInv_sorted_aux mus hs hneg
 
+/-- ... hence the FIRST multiplier returned is the critical one: it is positive and no other returned multiplier is smaller. -/
+theorem first_multiplier_is_critical {K : Type} [Field K] [LinearOrder K] [IsStrictOrderedRing K]
+    (μ0 : K) (mus : List K) (hs : (μ0 :: mus).Pairwise (· < ·)) (hneg : ∀ μ ∈ μ0 :: mus, μ < 0) :
+    0 < -1 / μ0 ∧ ∀ lam ∈ (μ0 :: mus).map (fun μ => -1 / μ), -1 / μ0 ≤ lam := by
+  obtain ⟨hp, hpos⟩ := multipliers_ascending_positive (μ0 :: mus) hs hneg
+  refine ⟨hpos _ (by simp), ?_⟩
+  intro lam hl
+  simp only [List.map_cons, List.pairwise_cons] at hp
+  simp only [List.map_cons, List.mem_cons] at hl
+  rcases hl with rfl | hl
+  · exact le_refl _
+  · exact le_of_lt (hp.1 lam hl)
 /-- the quantity `eigsh(sigma=1, mode='cayley', which='SM')` minimises, in terms of the multiplier:
 `ν = (μ+1)/(μ-1)` at `μ = -1/λ` is `-(λ-1)/(λ+1)`. -/
 theorem cayley_transform {K : Type} [Field K] {lam : K} (h0 : lam ≠ 0) (h1 : lam + 1 ≠ 0) :
